@@ -84,7 +84,13 @@ Definition viol_case (c : pcase) : list N :=
   (* 8: the registered pattern is routed to for a plain resource name exactly when it matches the name;
      9: a name that only starts with the Mux path (no '.' after it) was routed *)
   (if g_reg c && g_rid_s c && no_qmark (cs c) && negb (Bool.eqb (g_routed c) (g_matches c)) then [8] else []) ++
-  (if g_nosep c then [9] else []).
+  (if g_nosep c then [9] else []) ++
+  (* 10: a pattern in which a tag occurs more than once: when replacing EVERY occurrence of each tag by the value
+     Values extracted for it gives the name (the occurrences captured the same token), ReplaceTags applied to that
+     map must return the name too *)
+  (if okp && oks && isSome (g_values c) && negb (nodupb (tag_names (cp c))) && no_anon (cp c)
+      && beq (replace_tags (vals_or_empty (g_values c)) (cp c)) (cs c)
+      && negb (beq (g_repl c) (cs c)) then [10] else []).
 
 Fixpoint run_idx {A} (f : A -> list N) (i : N) (cs : list A) : list (N * N) :=
   match cs with
